@@ -842,6 +842,10 @@ func (c *Conn) flush() error {
 	}
 
 	if len(c.writeList) == 0 {
+		// nothing to flush: do not stay registered for writability (an
+		// immediately connected dialer is, and level-triggered epoll
+		// would report it in a busy loop).
+		c.resetRead()
 		return nil
 	}
 
